@@ -7,7 +7,24 @@ use std::hash::{Hash, Hasher};
 use std::panic::{catch_unwind, AssertUnwindSafe};
 use std::time::Instant;
 
-pub const VERIF_ROOT: &str = "/verif";
+/// Root of the verification tree: $VERIF_ROOT, else three levels above the executable
+/// (<root>/target/release/t2n-verif), else /verif.
+pub fn verif_root() -> &'static str {
+    static ROOT: std::sync::OnceLock<String> = std::sync::OnceLock::new();
+    ROOT.get_or_init(|| {
+        if let Ok(r) = std::env::var("VERIF_ROOT") {
+            return r;
+        }
+        if let Ok(exe) = std::env::current_exe() {
+            if let Some(root) = exe.parent().and_then(|p| p.parent()).and_then(|p| p.parent()) {
+                if root.join("known_findings.json").exists() || root.join("harness").exists() {
+                    return root.to_string_lossy().to_string();
+                }
+            }
+        }
+        "/verif".to_string()
+    })
+}
 
 #[derive(Clone, Copy, PartialEq, Eq, Debug)]
 pub enum Tier {
@@ -233,7 +250,7 @@ fn full(re: &str) -> regex::Regex {
 }
 
 pub fn load_known(property: &str) -> Vec<Known> {
-    let path = format!("{VERIF_ROOT}/known_findings.json");
+    let path = format!("{}/known_findings.json", verif_root());
     let txt = match std::fs::read_to_string(&path) {
         Ok(t) => t,
         Err(_) => return vec![],
@@ -328,7 +345,8 @@ impl Ctx {
         let truncated = acc.viol_count > stored;
         let wall = self.start.elapsed().as_secs_f64();
 
-        let dir = format!("{VERIF_ROOT}/replays/{}", self.id);
+        let dir = format!("{}/replays/{}", verif_root(), self.id);
+        let _ = std::fs::remove_dir_all(&dir); // replays of earlier runs are stale
         let mut lines = vec![];
         if !fresh.is_empty() {
             let _ = std::fs::create_dir_all(&dir);
@@ -370,8 +388,8 @@ impl Ctx {
             "wall_s": (wall * 1000.0).round() / 1000.0,
             "violations": fresh.len(),
         });
-        let _ = std::fs::create_dir_all(format!("{VERIF_ROOT}/evidence"));
-        let evpath = format!("{VERIF_ROOT}/evidence/{}.json", self.id);
+        let _ = std::fs::create_dir_all(format!("{}/evidence", verif_root()));
+        let evpath = format!("{}/evidence/{}.json", verif_root(), self.id);
         if let Err(e) = std::fs::write(&evpath, serde_json::to_string_pretty(&ev).unwrap() + "\n") {
             eprintln!("machinery: cannot write {evpath}: {e}");
             return 2;
